@@ -826,3 +826,63 @@ package logqlengine
 //@   loop 1 invariant rangeindex+1 <= len(stage.Exprs) && e != nil && fresh(e) && e.labels != nil && fresh(e.labels) && len(e.labels) <= len(stage.Labels) + rangeindex+1
 //@   loop 1 body_ensures[key-extracted-into-target] has(e.labels, key) && e.labels[key] == stage.Exprs[rangeindex].Label
 //@   loop 1 body_ensures[one-target-per-key] len(e.labels) == head(len(e.labels)) + 1
+
+// ---- C17: safety preconditions and invariants (no index / slice / nil-map panic).
+
+//@ scope label_format.go
+
+//@ func (*LabelFormat).Process
+//@   requires set.labels != nil
+//@   modifies *
+//@   loop 0 invariant set.labels != nil
+
+//@ scope drop.go
+
+//@ func buildDropLabels
+//@   loop 0 invariant e != nil && e.drop != nil
+//@   loop 1 invariant e != nil && e.matchers != nil
+
+//@ scope keep.go
+
+//@ func buildKeepLabels
+//@   loop 0 invariant e != nil && e.keep != nil
+//@   loop 1 invariant e != nil && e.matchers != nil
+
+//@ scope aggregated_labels.go
+
+//@ func (*aggregatedLabels).deleteEntry
+//@   modifies a.entries, a.entries[*]
+//@   loop 0 modifies a.entries[*]
+//@   loop 0 invariant 0 <= n && n <= rangeindex+1 && rangeindex+1 <= len(a.entries)
+
+//@ scope template.go
+
+//@ func alignRight
+//@   modifies nothing
+//@   loop 0 modifies nothing
+//@   loop 0 invariant 0 <= offset && offset <= len(s) && 0 <= l
+//@   loop 0 decreases len(s) - offset
+
+//@ scope line_filter.go
+
+// A captured candidate is a non-empty prefix of the text it was taken from.
+//@ func tryCaptureIPv4
+//@   modifies nothing
+//@   ensures[non-empty-prefix] ret1 ==> 1 <= len(ret0) && len(ret0) <= len(s)
+//@   loop 0 modifies nothing
+//@   loop 0 invariant len(s) == old(len(s)) && len(s) >= 4 && rangeindex+1 <= len(s)
+
+//@ func tryCaptureIPv6
+//@   modifies nothing
+//@   ensures[non-empty-prefix] ret1 ==> 1 <= len(ret0) && len(ret0) <= len(s)
+//@   loop 0 modifies nothing
+//@   loop 1 modifies nothing
+//@   loop 1 invariant len(s) == old(len(s)) && len(s) >= 2 && rangeindex+1 <= len(s)
+
+//@ func (*IPLineFilter).Process
+//@   loop 0 invariant 0 <= i && i <= len(line)
+//@   loop 0 decreases len(line) - i
+//@ func isHexDigit
+//@   inline
+//@ func isDigit
+//@   inline
